@@ -84,7 +84,19 @@ def main():
     d = "/verif/seeded/%s_%s" % (prop, var)
     os.makedirs(d, exist_ok=True)
     shutil.copy(patch, d); shutil.copy(demo, d)
-    json.dump(out, open(os.path.join(d, "meta.json"), "w"), indent=1)
+    mp = os.path.join(d, "meta.json")
+    if os.path.exists(mp):
+        old = json.load(open(mp))
+        for k in ("suite_passes_with_change", "demo_fails_with_change", "demo_passes_without_change", "demo_path"):
+            if k in old and k not in out:
+                out[k] = old[k]
+        out["ran"] = old.get("ran", []) + [r for r in out["ran"] if r not in old.get("ran", [])]
+        if not confirm:
+            hist = old.get("check_history", [])
+            hist.append({"checks": old.get("checks"), "note": "result before the checks were strengthened"})
+            out["check_history"] = hist
+    out["ran"].append("checks run against the change: " + ", ".join("%s rc=%s" % (c, det[c]["rc"]) for c in det))
+    json.dump(out, open(mp, "w"), indent=1)
     print("stored", d, "detected_by", out["detected_by"])
 
 if __name__ == "__main__":
